@@ -73,7 +73,11 @@ def drive(loop, env, chooser, goal, *, faults=lambda: [], on_step=None,
         if steps > horizon:
             return 'horizon'
         comps = env.enabled()
-        if timers and loop.next_timer() is not None:
+        if timers == 'idle':
+            # time only passes when nothing else can happen
+            if not ready and not comps and loop.next_timer() is not None:
+                comps = ['~timer']
+        elif timers and loop.next_timer() is not None:
             comps = comps + ['~timer']
         flts = faults()
         opts = []     # (kind, label, fn)
